@@ -139,11 +139,142 @@ def assign_stream(ctx, rng, n, seen, all_hist):
     ctx.cov['assignment'] = cov
 
 
+# ---------------------------------------------------------------------------------------------
+# coverage audit: stream `ext` (operations / options of harness/c01_ext.py) and the coverage tables
+# ---------------------------------------------------------------------------------------------
+EXT_WEIGHTS = {'*': 0.7, 'norm': 2.5, 'unary': 2.0, 'blockwise': 2.5, 'matvec': 1.5, 'eq': 1.0, 'get_block': 1.5, 'apply_charge_mapping': 1.5, 'add_charge': 1.5,
+               'construct2': 4.0, 'grid_pieces': 2.0, 'nested_pipes': 2.0, 'combine_split': 3.0, 'charges': 2.0, 'storage': 3.0, 'construct': 3.0, 'grid_outer': 2.0, 'grid_concat': 1.5, 'squeeze': 2.0,
+               'sort_legcharge': 2.5, 'combine_legs': 5.0, 'split_legs': 5.0, 'getitem': 5.0, 'setitem': 4.0}
+EXT_P_MISSING = [0.0, 0.25, 0.25, 0.6, 1.0]      # 1.0: tensors without any stored block as operands
+
+# public names of np_conserved outside the property (reason from the property text: C01 speaks about the tensor ALGEBRA and its dense values)
+API_EXCLUDED = {
+    'svd': 'matrix factorization: C05', 'qr': 'matrix factorization: C05', 'lq': 'matrix factorization: C05', 'polar': 'matrix factorization: C05',
+    'pinv': 'built on svd: C05', 'eigh': 'eigen decomposition: C05', 'eig': 'eigen decomposition: C05', 'eigvalsh': 'eigen decomposition: C05',
+    'eigvals': 'eigen decomposition: C05', 'speigs': 'sparse eigen decomposition: C05', 'expm': 'matrix function built on eigh/eig: C05',
+    'orthogonal_columns': 'built on qr: C05', 'to_iterable_arrays': 'returns its argument (no tensor value)',
+    'Array.save_hdf5': 'serialisation: C17', 'Array.from_hdf5': 'serialisation: C17',
+    'Array.shift_charges': 'needs a DipolarChargeInfo; the property quantifies over none / U(1) / Z_N charges',
+    'Array.shift_charges_horizontal': 'needs a DipolarChargeInfo; the property quantifies over none / U(1) / Z_N charges',
+    'Array.sparse_stats': 'returns a string about the storage', 'Array.test_sanity': 'invariant check (C02); called on every tensor the programs create',
+    'Array.is_completely_blocked': 'bool about the block structure of the legs, which is not an observable of C01 (C02)',
+}
+# names that ARE the observation of every comparison of a result with numpy
+API_OBSERVERS = {'Array.to_ndarray': 'dense form of every result', 'Array.get_leg_labels': 'labels of every result'}
+# optional parameters that are deliberately not varied
+OPT_EXCLUDED = {
+    ('detect_grid_outer_legcharge', 'bunch'): 'accepted but neither documented nor used by the function',
+}
+# functions of np_conserved.py outside the property (line coverage table): the excluded public names + their private workers
+COV_EXCLUDED_FUNCS = ('svd', 'qr', 'lq', 'polar', 'pinv', 'eigh', 'eig', 'eigvalsh', 'eigvals', 'speigs', 'expm', 'orthogonal_columns', 'to_iterable_arrays', '_svd_worker',
+                      '_eig_worker', '_eigvals_worker', '__pyx_unpickle_Array', 'Array.save_hdf5', 'Array.from_hdf5', 'Array.shift_charges', 'Array.shift_charges_horizontal',
+                      'Array.sparse_stats', 'Array.__repr__', 'Array.__str__', 'Array._bunch', 'Array._perm_qind', 'Array.is_completely_blocked')
+
+
+def ext_programs(rng, tier, n):
+    return [npc_gen.make_program(rng, tier, record_coq=0, p_chain=0.6, keep_flagged=True, rich=(i % 2 == 1), sparse_values=True, ext=True, op_weights=EXT_WEIGHTS,
+                                 p_missing=EXT_P_MISSING, leg_style='single-block' if i % 5 == 4 else None) for i in range(n)]
+
+
+def ext_stream(ctx, rng, n, seen, all_hist):
+    """programs with the key `ext` (see harness/c01_ext.py): the public operations / documented options the other streams do not reach, results over
+    another ChargeInfo continued by further operations, second accessors; returns the statistics of the py configuration"""
+    progs = ext_programs(rng, ctx.tier, n)
+    for p in progs:
+        p['nsteps'] += 2
+    hists = {}
+    for config in ('py', 'cy'):
+        results, infos, crashes = cc.run_programs('programs', progs, config, False)
+        hist, notes = cc.collect(ctx, PROP, 'ext-' + config, progs, results, crashes, config, False, seen_keys=seen)
+        hists[config] = hist
+        all_hist['ext-' + config] = {k: v for k, v in sorted(hist.items()) if not k.startswith(('api:', 'opt:'))}
+    return hists
+
+
+def coverage_tables(ctx, hists, cov_future):
+    """item x option -> reached (count) / excluded (reason); a public name of np_conserved (function, Array method, operator) that is neither
+    reached with a compared value nor classified is a correspondence failure, and so is a documented optional parameter that kept one value"""
+    res, infos, crashes = cc.run_programs('c01reflect', [{'seed': 0}], 'py', False, nchunks=1)
+    api = (res[0] or {}).get('api')
+    if not api:
+        ctx.fail('correspondence', 'reflection of the public names of np_conserved failed: %s' % (res[0],), None)
+        return
+    table, opt_table = {}, {}
+    n_reached = n_excluded = n_opt = n_opt_excluded = 0
+    for name in sorted(api):
+        cnt = {cfg: h.get('api:' + name, 0) for cfg, h in hists.items()}
+        if name in API_EXCLUDED:
+            table[name] = 'excluded: ' + API_EXCLUDED[name]
+            n_excluded += 1
+            continue
+        if name in API_OBSERVERS:
+            table[name] = 'observer: ' + API_OBSERVERS[name]
+            n_reached += 1
+            continue
+        if min(cnt.values()) <= 0:
+            table[name] = 'NOT REACHED'
+            ctx.fail('correspondence', 'coverage: the public name np_conserved.%s is neither reached by the ext stream (value compared with numpy) nor classified '
+                     'in harness/c01.py' % name, None)
+            continue
+        table[name] = 'ext stream: %s calls' % '/'.join('%d %s' % (v, k) for k, v in sorted(cnt.items()))
+        n_reached += 1
+        for prm in api[name]:
+            seen_cls = sorted(k.split('=', 1)[1] for k in hists['py'] if k.startswith('opt:%s:%s=' % (name, prm)))
+            if (name, prm) in OPT_EXCLUDED:
+                opt_table['%s(%s)' % (name, prm)] = 'excluded: ' + OPT_EXCLUDED[(name, prm)]
+                n_opt_excluded += 1
+            elif len(seen_cls) >= 2:
+                opt_table['%s(%s)' % (name, prm)] = 'classes of values: ' + ', '.join(seen_cls[:12])
+                n_opt += 1
+            else:
+                opt_table['%s(%s)' % (name, prm)] = 'NOT VARIED: %s' % seen_cls
+                if ctx.tier != 'quick' or hists['py'].get('op:init', 0) >= 1200:
+                    ctx.fail('correspondence', 'coverage: the documented optional parameter `%s` of np_conserved.%s kept one value in the ext stream (%s) and is not '
+                             'classified in harness/c01.py' % (prm, name, seen_cls), None)
+    # forms of arguments without a default (index forms, operand forms ...) that the ext stream distinguishes
+    forms = {}
+    for k, v in hists['py'].items():
+        if k.startswith('opt:'):
+            _, name, rest = k.split(':', 2)
+            prm = rest.split('=', 1)[0]
+            if prm not in api.get(name, []):
+                forms.setdefault('%s(%s)' % (name, prm), {})[rest.split('=', 1)[1]] = v
+    ctx.cov['api_coverage'] = {'names': table, 'optional_parameters': opt_table, 'argument_forms': forms,
+                               'summary': {'public_names': len(api), 'reached': n_reached, 'excluded': n_excluded, 'optional_parameters_varied': n_opt,
+                                           'optional_parameters_excluded': n_opt_excluded},
+                               'continuation_on_results_over_another_ChargeInfo': {k: v for k, v in sorted(hists['py'].items()) if k.startswith(('follow:', 'follow-op:'))}}
+    # line coverage of np_conserved.py for one representative chunk (py configuration)
+    try:
+        cres = cov_future.result()
+    except Exception as e:      # noqa: BLE001
+        cres = {'error': repr(e)}
+    if not cres or 'functions' not in cres:
+        ctx.notes.append('line coverage of np_conserved.py not measured: %s' % ((cres or {}).get('error'),))
+        return
+    fn = {k: v for k, v in cres['functions'].items() if not k.startswith(COV_EXCLUDED_FUNCS) and v['lines']}
+    missed = {k: v['missed'] for k, v in fn.items() if v['missed']}
+
+    def is_error_line(t):
+        return t.startswith(('raise ', 'warnings.warn', 'assert ', 'msg = ', 'return NotImplemented')) or t in ('(', ')')
+    value_missed = {k: [m for m in v if not is_error_line(m[1])] for k, v in missed.items()}
+    value_missed = {k: v for k, v in value_missed.items() if v}
+    ctx.cov['line_coverage_np_conserved'] = {
+        'chunk': '%d programs (ext + default + assignment), py configuration, tracer %s' % (cres['programs'], cres.get('tracer')),
+        'functions_in_scope': len(fn), 'functions_never_entered': sorted(k for k, v in fn.items() if len(v['missed']) == v['lines']),
+        'statements': sum(v['lines'] for v in fn.values()), 'statements_missed': sum(len(v['missed']) for v in fn.values()),
+        'missed_error_or_warning_statements': sum(len(v) for v in missed.values()) - sum(len(v) for v in value_missed.values()),
+        'missed_other_statements': value_missed}
+    never = [k for k in ctx.cov['line_coverage_np_conserved']['functions_never_entered'] if not k.split('.')[-1].startswith('_')]
+    for k in never:
+        ctx.fail('correspondence', 'coverage: the public function np_conserved.%s was never entered by the traced chunk and is not classified' % k, None)
+
+
 def main(ctx):
     if ctx.replay_in:
         ctx.proof = None
         return replay(ctx, PROP)
     rng = ctx.rng
+    t_start = __import__('time').time()
     ctx.proof = common.check_proofs(PROP, extra_targets=['Model/TensorCheck.vo', 'Model/LabelsCheck.vo', 'Model/TensorDotCheck.vo'])
     nprog = ctx.pick(1400, 12000)
     nleg = ctx.pick(1500, 10000)
@@ -160,6 +291,15 @@ def main(ctx):
     seen = {}
     all_hist = {}
     coq_done = {}
+    # line coverage of np_conserved.py under a tracer: one chunk in the background while the streams run
+    from concurrent.futures import ThreadPoolExecutor
+    cov_rng = __import__('random').Random(rng.randrange(1 << 30))
+    cov_progs = ext_programs(cov_rng, ctx.tier, ctx.pick(800, 2000)) + \
+        [npc_gen.make_program(cov_rng, ctx.tier, record_coq=0, p_chain=P_CHAIN, keep_flagged=True, rich=(i % 2 == 1), sparse_values=True) for i in range(ctx.pick(200, 500))] + \
+        [npc_gen.make_program(cov_rng, ctx.tier, record_coq=0, keep_flagged=True, rich=(i % 2 == 1), sparse_values=True, op_weights=ASSIGN_WEIGHTS,
+                              p_missing=ASSIGN_P_MISSING) for i in range(ctx.pick(100, 250))]
+    cov_pool = ThreadPoolExecutor(max_workers=1)
+    cov_future = cov_pool.submit(lambda: cc._run_chunk('c01cov', [{'seed': 0, 'programs': cov_progs}], 'py', False, 'cov')[0][0])
     for config in ('py', 'cy'):
         results, infos, crashes = cc.run_programs('programs', programs, config, False)
         if config == 'cy' and not all(i.get('have_cython') for i in infos if i):
@@ -176,6 +316,14 @@ def main(ctx):
     all_hist['legs'] = hist
     nlab = label_stream(ctx, rng, ctx.pick(400, 3000))
     assign_stream(ctx, rng, ctx.pick(800, 6000) * (1 if ctx.proof.ok else 3), seen, all_hist)
+    import time
+    t_ext = time.time()
+    ext_hists = ext_stream(ctx, rng, ctx.pick(1300, 9000) * (1 if ctx.proof.ok else 3), seen, all_hist)
+    t_tab = time.time()
+    coverage_tables(ctx, ext_hists, cov_future)
+    cov_pool.shutdown(wait=False)
+    ctx.cov['coverage_audit_wall_s'] = {'ext_stream': round(t_tab - t_ext, 1), 'tables_and_wait_for_traced_chunk': round(time.time() - t_tab, 1),
+                                        'all_before': round(t_ext - t_start, 1)}
     ctx.cov['traces_validated_against_impl'] = sum(v['cases'] for v in coq_done.values()) + nlab
     ctx.cov['model_vs_impl'] = coq_done
     ctx.cov['input_distribution'] = all_hist
@@ -201,6 +349,10 @@ def main(ctx):
         'C01 oracle: numpy on dense arrays with small integer / Gaussian-integer entries (exact in float64); the documented index map of a LegPipe '
         '(C-order over incoming blocks, stable sort by charge, bunch) is re-implemented in harness/npc_gen.py',
         'C01 not generated: legs without any block (block_number == 0) and index selections that keep nothing; add_leg(axis=rank); dtype promotion is not compared',
+        'C01 coverage audit: public names of np_conserved outside the property (coverage.api_coverage.names, reasons from the property text): matrix factorizations and functions '
+        'built on them (C05), hdf5 (C17), shift_charges (DipolarChargeInfo), strings / storage statistics; split_legs(cutoff) is exercised with a cutoff below every non-zero entry '
+        '(numpy has no such operation: a larger cutoff changes the dense form by design); from_func / from_func_square are called with functions of the block shape only (the order of '
+        'the calls is not documented); ipurge_zeros cutoffs are half-integers on integer tensors (never equal to a block norm); the block structure of legs is not compared (C02)',
         'C01 Coq model covers transpose, conj, scalar multiplication, addition (sorted merge), outer and tensordot (rows, charges and dense values; not full contractions); all other operations are '
         'checked by the numpy oracle only',
     ]
@@ -215,5 +367,9 @@ RULE = ('random programs (2-3 initial tensors + 1-6 (quick) / 1-12 (thorough) op
         '(i)binary_blockwise / inner / tensordot, statistics in coverage.permute_then_binary); the value of an assignment a[inds] = value stores its own '
         'selection of blocks (independent of the blocks a[inds] stores: more / fewer / the same number at other positions / none / all, zero blocks stored '
         'or not, shuffled order); stream `assign`: programs of mostly such assignments on tensors with 25-60% missing blocks (statistics in '
-        'coverage.assignment).  One case = one program; evaluations counts steps; a program is non-trivial when some step produced a tensor '
+        'coverage.assignment); stream `ext` (harness/c01_ext.py): programs over the same operations with their full documented option spaces plus the public '
+        'operations the other streams do not call (coverage.api_coverage: every public function of np_conserved / public method and operator of Array, by reflection, is reached '
+        'with a compared value or excluded with a reason; every optional parameter takes >= 2 classes of values), every 5th program over legs of one block, tensors without stored '
+        'blocks, results over another ChargeInfo continued by 1-3 further operations, second accessors of every result compared; line coverage of np_conserved.py for one traced '
+        'chunk in coverage.line_coverage_np_conserved.  One case = one program; evaluations counts steps; a program is non-trivial when some step produced a tensor '
         'with a non-zero entry; distinct = distinct (seed, operation sequence).  Each program is run in the py and the cy configuration.')
